@@ -4,8 +4,8 @@
    product of the bond matrices selected by b (None when a size does not fit), i.e. the dense
    amplitude <b|psi>, or the dense element <b|O|b'> of an MPO with b_q := out_q*d + in_q.
    The model functions are those of Model/MPSAlg.v, tied to /repo by tools/props/c11.py. *)
-From Coq Require Import List Ring ZArith.
-From EV Require Import Model.TransferMat Model.MPSAlg Proofs.TransferMat Proofs.MPSAlg Proofs.MPSInner.
+From Coq Require Import List Ring ZArith Bool.
+From EV Require Import Model.TransferMat Model.MPSAlg Model.Zip Proofs.TransferMat Proofs.MPSAlg Proofs.MPSInner Proofs.ZipProofs.
 Import ListNotations.
 
 (* add_factors (direct sum [A|B], diag(A,B), ..., [A;B]) represents the sum: for every number of
@@ -58,3 +58,39 @@ Proof. exact (conj inner_spec_example (conj gi_conj_add (conj gi_conj_mul (conj 
 Theorem C11_gaussian_integers_ring :
   ring_theory (k0 gi_ops) (k1 gi_ops) (kadd gi_ops) (kmul gi_ops) (ksub gi_ops) (kopp gi_ops) (@eq GI).
 Proof. exact gi_ring. Qed.
+
+(* The zip-up product zip_right (what MPO.apply_to and MPO.__matmul__ run, before the final truncation sweep of C10)
+   represents the dense product, whatever the QR factorisations return as long as they factorise (L R = M): for every
+   number of sites, all bond dimensions, every physical dimension d, every commutative ring and every oracle,
+       <bo| zip_right(tops, bots)>  =  sum over m in {0..d-1}^N of  <top_idx bo m| tops> * <bot_idx bo m| bots>,
+   where the operator is read at (out, in) = (o_q, m_q) and the operand at m_q (e = 1: an MPS, this is (O psi)(o) =
+   sum_m O(o,m) psi(m)) or at (m_q, j_q) (e = d: an MPO, this is (O1 O2)(o,j) = sum_m O1(o,m) O2(m,j)).
+   Premises: the chains end with bond 1 (as every MPS/MPO does), the index string is in range, and the amplitudes are
+   defined (bonds fit); a chain whose bonds do not fit makes zip_right return None = the ValueError of the code. *)
+Theorem C11_zip_contract : forall (K : Type) (Ko : RingOps K),
+  ring_theory (k0 Ko) (k1 Ko) (kadd Ko) (kmul Ko) (ksub Ko) (kopp Ko) (@eq K) ->
+  forall (d e : nat), 0 < e -> forall (qr : QR K), QRok K Ko qr ->
+  forall (tops bots Fs : list (T3 K)),
+  zip_right Ko d e qr tops bots = Some Fs ->
+  forall top bot, dr (last tops top) = 1 -> dr (last bots bot) = 1 ->
+  forall (bo : list nat) (x : K) (ft fb : list nat -> K),
+  length bo = length tops -> Forall (fun s => s < d * e) bo ->
+  amp Ko Fs bo = Some x ->
+  (forall m, In m (strings (repeat d (length tops))) -> amp Ko tops (top_idx d e bo m) = Some (ft m)) ->
+  (forall m, In m (strings (repeat d (length tops))) -> amp Ko bots (bot_idx e bo m) = Some (fb m)) ->
+  x = sumL Ko (strings (repeat d (length tops))) (fun m => kmul Ko (ft m) (fb m)).
+Proof. exact zip_contract. Qed.
+
+(* its premises are satisfiable: both scripted oracles of the correspondence factorise, and on a concrete
+   Gaussian-integer operator / state pair the product, all its amplitudes and all operand amplitudes are defined *)
+Theorem C11_zip_contract_premises_satisfiable :
+  QRok GI gi_ops (qr_gauge []) /\ QRok GI gi_ops qr_left_identity /\
+  (match zip_right gi_ops 2 1 qr_left_identity ex_top ex_bot with
+   | Some Fs =>
+       forallb (fun bo => match amp gi_ops Fs bo with Some _ => true | None => false end) (strings [2; 2]) &&
+       forallb (fun bo => forallb (fun m =>
+                  match amp gi_ops ex_top (top_idx 2 1 bo m), amp gi_ops ex_bot (bot_idx 1 bo m) with
+                  | Some _, Some _ => true | _, _ => false end) (strings [2; 2])) (strings [2; 2])
+   | None => false
+   end = true /\ dr (last ex_top (zeros3 gi_ops 0 0 0)) = 1 /\ dr (last ex_bot (zeros3 gi_ops 0 0 0)) = 1).
+Proof. exact (conj qr_identity_gauge_ok (conj qr_left_identity_ok zip_example)). Qed.
